@@ -566,6 +566,11 @@ func (e *Engine) Explore(fn *ssa.Function) {
 			fmt.Fprintf(os.Stderr, "path %d: %s %s (depth %d, steps %d)\n", e.Paths, k, e.outcome.Detail, e.depth, e.steps)
 		}
 		// truncate tree to what this path actually used (a path may end before using the replay prefix only by nondeterminism)
+		if e.outcome.Kind == "inconclusive" && strings.HasPrefix(e.outcome.Detail, "time budget") {
+			// the wall budget of the obligation ran out (possibly in the middle of replaying a prefix):
+			// stop here; what was found so far stays, the obligation is inconclusive
+			return
+		}
 		if e.depth < len(e.tree) {
 			panic(fmt.Sprintf("path ended at depth %d before replay prefix %d was consumed (nondeterministic execution): outcome %v", e.depth, len(e.tree), e.outcome))
 		}
